@@ -109,6 +109,15 @@ def work(tasks, idx):
             continue
         req, r = b
         e = _reg.expectation(req, r.roots, require_uv=bool(flags & core.UV))
+        if e.get("roots") and variant % 3 != 0 and fmt != "android-key":
+            # the RP's anchors as PEM files are found in the wild (RFC 7468 allows text around the armour): a leading blank line,
+            # a comment or an `openssl x509 -text` preamble before it, CRLF line ends, text after it
+            def respell(pem, k):
+                pem = bytes(pem)
+                return [b"\n" + pem, b"# Sim Attestation Root\n" + pem, pem.replace(b"\n", b"\r\n"),
+                        b"Certificate:\n    Data:\n        Version: 3 (0x2)\n" + pem, pem + b"\ntrailing text\n",
+                        b"  \n\n" + pem][k % 6]
+            e["roots"] = {f: [respell(p, variant + i) for i, p in enumerate(v)] for f, v in e["roots"].items()}
         if variant % 4 == 2:
             # the RP's allow-list also names identifiers the library has no member for (ES384, ES256K)
             e["algs"] = [-47] + list(cases.ALL_ALGS) + [-35]
